@@ -82,7 +82,7 @@ impl Prop for C12 {
         ctx.tier.pick(30_000, 400_000)
     }
     fn rule(&self) -> &'static str {
-        "literal product (3/5/7 quotes; interior endings LF/CR/CRLF/mixed; indentation of spaces, tabs, mixed, U+3000, VT; blank lines, lines that are a strict prefix of the closing indentation, lines of exactly the closing indentation, under-indented lines, over-indented lines, trailing blanks, embedded shorter quote runs, text before the closing quotes) placed in 15 carrier programs (constant, assignment, argument, after an operator, followed by a method call, nested control flow, anonymous routine, case arm, several per statement) x sampled configurations; the literal's value is known by construction and the literal is located in the output by non-blank ordinal; oracle: conforming literal => same value lines, closing quotes and interior lines indented exactly like the opening quotes' line, configured terminators; otherwise byte-for-byte. Non-trivial: literal has >= 2 interior lines and its text changed; distinct by hash of (literal, carrier, configuration)."
+        "literal product (3/5/7 quotes; interior endings LF/CR/CRLF/mixed; indentation of spaces, tabs, mixed, U+3000, VT; blank lines, lines that are a strict prefix of the closing indentation, lines of exactly the closing indentation, under-indented lines, over-indented lines, trailing blanks, embedded shorter quote runs, text before the closing quotes) placed in 29 carrier programs (constant, assignment, argument, after an operator, followed by a method call, nested control flow, anonymous routines also nested, case arm, several per statement, statements split by conditional directives, far-indented receiver literals) x sampled configurations; the literal's value is known by construction and the literal is located in the output by non-blank ordinal; oracle: conforming literal => same value lines, closing quotes and interior lines indented exactly like the opening quotes' line, configured terminators; otherwise byte-for-byte. Non-trivial: literal has >= 2 interior lines and its text changed; distinct by hash of (literal, carrier, configuration)."
     }
     fn floor(&self, tier: Tier) -> u64 {
         tier.pick(3_000, 60_000)
